@@ -250,3 +250,24 @@ thub = Contract(
     stated=["a thub of a non-iterable is that object"],
 )
 thub.isinstance_hook = lib.std_isinstance
+
+# ---------------------------------------------------------------------------
+# stage constructors (C02: building a stage reads nothing)
+sblocks = _mk(Contract(
+    name="Stream.blocks", qual="audiolazy/lazy_stream.py::Stream.blocks", kind="function", props=["C08", "C02"],
+    modes={"kwargs": Mode(params=dict(self=lib.StreamObj(), args=Const(()), kwargs=lambda m, n: {"size": z3.Int("size"), "hop": z3.Int("hop")}))},
+    ghost_init=_ghost, globs=dict(G, blocks=lib.repo_call("audiolazy/lazy_misc.py::blocks")), callees=CAL,
+    ensures=[("S:delegates-to-blocks-on-the-remaining-items", "is_stream(result) and call_of(data_of(result)) == 'audiolazy/lazy_misc.py::blocks' and "
+              "same(call_arg(data_of(result), 'seq'), d0) and same(call_arg(data_of(result), 'size'), kwargs['size']) and same(call_arg(data_of(result), 'hop'), kwargs['hop'])"),
+             ("C02:construction-reads-nothing", "pos(d0) == p0")],
+    stated=["Stream.blocks delegates to blocks (same through Stream.blocks)"],
+))
+
+tostream = Contract(
+    name="tostream.new_func", qual="audiolazy/lazy_stream.py::tostream.new_func", kind="function", props=["C02"],
+    modes={"one-arg": Mode(params=dict(args=lambda m, n: (m.new_iter(Elem, "src"),), kwargs=Const({}), func=lambda m, n: lib.repo_call_generic("func")))},
+    globs=G, callees=CAL,
+    ensures=[("S:wraps-the-generator-in-a-Stream", "is_stream(result) and call_of(data_of(result)) == 'func'"),
+             ("C02:construction-reads-nothing", "pos(args[0]) == 0")],
+    stated=["@tostream: calling the decorated generator function builds Stream(func(...)) and runs nothing (a generator body runs only on next)"],
+)
